@@ -645,7 +645,20 @@ impl TypedExpr {
                 };
                 Literal::Enum(name, variant_name.clone(), variant)
             }
-            ExprEnum::Range(min, max, num_ty) => Literal::Range(min, max, num_ty),
+            ExprEnum::Range(min, max, num_ty) => match ty {
+                // like a number literal, a range literal takes the number type that the type checker
+                // coerced it to (an unsuffixed `1..4` checked against `[u8; 3]` denotes three `u8`s)
+                Type::Array(elem_ty, _) => match *elem_ty {
+                    Type::Unsigned(elem_ty) => Literal::Range(min, max, elem_ty),
+                    Type::Signed(elem_ty) => Literal::Array(
+                        (min..max)
+                            .map(|n| Literal::NumSigned(n as i64, elem_ty))
+                            .collect(),
+                    ),
+                    _ => Literal::Range(min, max, num_ty),
+                },
+                _ => Literal::Range(min, max, num_ty),
+            },
             _ => unreachable!("This should result in a literal parse error instead"),
         }
     }
